@@ -158,3 +158,35 @@ func VerifH06HugeNumbers() {
 	verifReach("huge literal handled")
 	verifAssert(err != nil || n < 18, "a literal outside the numeric ranges is rejected with an error")
 }
+
+// H26c: a condition argument followed by plain arguments in the same call:
+// the following arguments keep their own (=) meaning, at parse time and after
+// the call has been rendered with String() and parsed again (forwarding).
+func VerifH26ConditionThenArg() {
+	d := verifU8("digit")
+	verifAssume(verifAnd(d >= '0', d <= '9'))
+	conds := []string{"a >< [1,5]", "a == 3", "a != 3", "a < 3", "a >= 3", "1 <= a <= 5", "1 < a < 5"}
+	ops := []Token{BETWEEN, EQ, NEQ, LT, GTE, BETWEEN, BETWEEN}
+	k := verifChoice("cond", verifBound("conds", 7))
+	text := "Row(" + conds[k] + ", m=" + string([]byte{d}) + ", n='x')"
+	q, err := ParseString(text)
+	verifReach("condition call parsed")
+	verifAssert(err == nil, "condition followed by arguments: parses")
+	if err != nil || len(q.Calls) != 1 {
+		return
+	}
+	check := func(c *Call, label string) {
+		cond, ok := c.Args["a"].(*Condition)
+		verifAssert(ok && cond.Op == ops[k], label+": the condition keeps its operator")
+		m, ok := c.Args["m"].(int64)
+		verifAssert(ok && m == int64(d-'0'), label+": a plain argument after a condition is a plain integer")
+		n, ok := c.Args["n"].(string)
+		verifAssert(ok && n == "x", label+": a plain argument after a condition is a plain string")
+	}
+	check(q.Calls[0], "parse")
+	q2, err := ParseString(q.Calls[0].String())
+	verifAssert(err == nil, "the rendered call parses again")
+	if err == nil && len(q2.Calls) == 1 {
+		check(q2.Calls[0], "forwarded")
+	}
+}
